@@ -2,6 +2,7 @@ CONSTANTS
   SeedLo = 1
   SeedHi = 300
   WithProps = FALSE
+  WithComments = FALSE
 INIT Init
 NEXT Next
 INVARIANT DesignFaithful
